@@ -62,10 +62,15 @@ MAP_SI, MAP_SS = O("map[string]int"), O("map[string]string")
 # the zero value of all but the array is nil
 NILABLE = {pkg: [NM(pkg, "Tags", B("[]string")), NM(pkg, "Attrs", B("map[string]string")), NM(pkg, "Hash", B("[4]uint8")),
                  NM(pkg, "PInt", B("*int")), NM(pkg, "Hook", B("func() int")), NM(pkg, "Pipe", B("chan int")),
-                 SL(B("string")), O("map[string]string"), P(B("int"))] for pkg in ("src", "dest")}
+                 SL(B("string")), O("map[string]string"), P(B("int")),
+                 # aliases (under: `=` + what they stand for)
+                 NM(pkg, "Moment", B("=time.Time")), NM(pkg, "SubAlias", B("=Sub")), NM(pkg, "TagsAlias", B("=[]string")),
+                 NM(pkg, "AttrAlias", B("=map[string]string"))] for pkg in ("src", "dest")}
 ARR4, ARR2I, ARR1 = O("[4]uint8"), O("[2]int"), O("[1]uint8")          # arrays: opaque to the model but for identity
 
 SRC_TYPES_GO = """package src
+
+import "time"
 
 type Kind int
 type Label string
@@ -87,8 +92,17 @@ type Hash [4]uint8
 type PInt *int
 type Hook func() int
 type Pipe chan int
+
+// declared ALIASES (the alias IS the type it stands for): of a foreign struct with unexported fields, of a local struct, of a
+// named slice, of a map - the zero value of an unmatched constructor parameter is that of the aliased type (`time.Time{}`, `Sub{}`, nil)
+type Moment = time.Time
+type SubAlias = Sub
+type TagsAlias = Tags
+type AttrAlias = map[string]string
 """
 DEST_TYPES_GO = """package dest
+
+import "time"
 
 type Kind int
 type Code int32
@@ -113,6 +127,13 @@ type Hash [4]uint8
 type PInt *int
 type Hook func() int
 type Pipe chan int
+
+// declared ALIASES (the alias IS the type it stands for): of a foreign struct with unexported fields, of a local struct, of a
+// named slice, of a map - the zero value of an unmatched constructor parameter is that of the aliased type (`time.Time{}`, `Sub{}`, nil)
+type Moment = time.Time
+type SubAlias = Sub
+type TagsAlias = Tags
+type AttrAlias = map[string]string
 """
 
 INTS = {"int", "int8", "int16", "int32", "int64", "uint", "uint8", "uint16", "uint32", "uint64"}
@@ -134,7 +155,7 @@ def use_gotypes(ctx):
 def _gotypes_fill(tys):
     import json
     import subprocess
-    src = SRC_TYPES_GO.replace("package src\n", 'package src\n\nimport "m/dest"\n\nvar _ dest.Kind\n', 1)
+    src = SRC_TYPES_GO.replace('import "time"\n', 'import "time"\nimport "m/dest"\n\nvar _ dest.Kind\n', 1)
     req = {"dest": DEST_TYPES_GO, "src": src, "types": [go_type(t, "src") for t in tys]}
     p = subprocess.run([_GOTYPES["bin"]], input=json.dumps(req), stdout=subprocess.PIPE, stderr=subprocess.PIPE, text=True, timeout=120)
     if p.returncode != 0:
@@ -275,9 +296,9 @@ def slots(s, pre=()):
             p = ".".join(pre + (m["name"],))
             t = m["type"]
             named = t[0] == "n" and t[3][0] == "b"       # `type PInt *int`, `type Tags []string`: pointer / slice KINDS (as reflect sees them)
-            if t[0] == "p" or (named and t[3][1].startswith("*")):
+            if t[0] == "p" or (named and t[3][1].lstrip("=").startswith("*")):
                 out.append(p)
-            elif t[0] == "s" or (named and t[3][1].startswith("[]")):
+            elif t[0] == "s" or (named and t[3][1].lstrip("=").startswith("[]")):
                 out.append(p)
                 if t[0] == "s" and t[1][0] == "p":
                     out += [p + "#0", p + "#1", p + "#2"]
@@ -410,6 +431,33 @@ def render_struct(s, pkg):
     return "\n".join(lines)
 
 
+def render_handctor(st, pkg, hc):
+    """a HAND-WRITTEN constructor of a type that is not a `shoot new` type (no ShootNew marker): `shoot map` must leave it alone
+    (seeded change C09-14 maps through it; it does not allocate the embedded pointer structs the generated methods write through)"""
+    fs = [m for m in st["members"] if m["k"] == "f" and m["name"][:1].isupper() and not m.get("join")][:hc.get("n", 3)]
+    style = hc.get("style", "plain")
+    if style == "unnamed":
+        return "func New%s(%s) *%s { return &%s{} }\n" % (st["name"], ", ".join(go_type(m["type"], pkg) for m in fs), st["name"], st["name"])
+    ps = []
+    for k, m in enumerate(fs):
+        if style == "grouped" and k + 1 < len(fs) and fs[k + 1]["type"] == m["type"]:
+            ps.append("p%d" % k)          # `p0, p1 int`
+        else:
+            ps.append("p%d %s" % (k, go_type(m["type"], pkg)))
+    lit = ", ".join("%s: p%d" % (m["name"], k) for k, m in enumerate(fs))
+    return "func New%s(%s) *%s { return &%s{%s} }\n" % (st["name"], ", ".join(ps), st["name"], st["name"], lit)
+
+
+def add_handctor(rng, spec, side=None, style=None):
+    sides = [sd for sd in ((side,) if side else ("src", "dest")) if spec[sd]["kind"] != "new"]
+    if not sides:
+        return spec
+    hc = spec.setdefault("handctor", {})
+    for sd in (sides if side else rng.sample(sides, rng.randint(1, len(sides)))):
+        hc[sd] = {"style": style or rng.choice(["plain", "plain", "grouped", "unnamed"]), "n": rng.randint(1, 3)}
+    return spec
+
+
 def method_names(spec):
     key = spec["flags"]["alias"] or "dest"
     p = key[:1].upper() + key[1:]
@@ -476,6 +524,9 @@ def render_src(spec, modpath, pkgname="src"):
         if man.get("read"):
             body.append("func (x %s%s) %s%s(d %s%s) {%s }\n" % ("" if man.get("recvval") and not rb else "*", s["name"], man["read"], kp,
                                                             "*" if man.get("readptr") else "", dt, rb))
+    hc = (spec.get("handctor") or {}).get("src")
+    if hc and s["kind"] != "new":
+        body.append(render_handctor(s, "src", hc))
     for d in embed_decls(s):
         body.append(render_struct(d, "src"))
         body.append("")
@@ -489,6 +540,9 @@ def render_dest(spec):
     if comp:
         body.append("type %s struct {\n" % comp.get("name", "Comp") + "".join("\tX%d %s\n" % (k, go_type(b, "dest")) for k, (n, a, b) in enumerate(comp["pairs"])) + "}\n")
     body += [render_struct(d, "dest"), ""]
+    hc = (spec.get("handctor") or {}).get("dest")
+    if hc and d["kind"] != "new":
+        body.append(render_handctor(d, "dest", hc))
     for e in embed_decls(d):
         body.append(render_struct(e, "dest"))
         body.append("")
@@ -918,6 +972,8 @@ class MapGen:
         spec = {"flags": flags, "sname": sname, "dname": dname, "src": src, "dest": dest, "mapper": mapper}
         if mapper and r.random() < o.get("decoys", 0.35):
             add_decoys(r, spec, concepts)
+        if r.random() < o.get("handctor", 0.15):
+            add_handctor(r, spec, o.get("handctor_side"), o.get("handctor_style"))
         # empty manual hooks (toX/writeX, fromX/readX): called last, assign nothing
         if r.random() < o.get("manual", 0.0):
             spec["manual"] = {"write": self.pick([None, "to", "write"]), "read": self.pick(["from", "read", "read"]),
@@ -1500,6 +1556,10 @@ def c01_leg(ctx, res, n):
     for sides in (("dest",), ("src",), ("src", "dest")):
         for k in range(2):
             plan.append(("type", dict(base, embeds=0.0, shadow=0.0, unexported=0.0, names=["ident"] * 4 + ["acronym", "tag"]), sides))
+    # 3b. unmatched constructor parameters of nil-able and ALIAS types (seeded change C01-13: the zero value of an alias of a foreign
+    #     struct with unexported fields written as an unnamed struct literal does not compile)
+    for sides in (("dest",), ("src",), ("dest",), ("src", "dest")):
+        plan.append(("type", dict(base, embeds=0.0, shadow=0.0, unexported=0.0, names=["ident"], kinds=["same", "conv"], n=(2, 3), extra=1.0, nilable=1.0), sides))
     # 4. multi-type runs whose FIRST type is (mapped to) a shoot-new type and whose second is plain: constructor parameters and
     #    accessor lists must not carry over to the second type
     for sides in (("dest",), ("src",), ("src", "dest")):
@@ -1608,6 +1668,9 @@ def count_features(spec, feats=None):
         inc("companion-" + spec["companion"]["mode"] + ("-disabled-embed" if spec["companion"]["disabled_embed"] else ""))
     for d_ in spec.get("decoys") or []:
         inc("decoy-method-" + d_["recv"])
+    for sd, hc_ in (spec.get("handctor") or {}).items():
+        if spec[sd]["kind"] != "new":
+            inc("hand-written-ctor-%s-%s" % (sd, hc_["style"]))
     if spec.get("companion") and spec["dest"]["kind"] == "new":
         inc("companion-before-shootnew-dest")
     if spec.get("mapper"):
